@@ -88,9 +88,28 @@ func c13Label(c *Ctx) {
 		r.AnchorMissing("C13.label", "internal/protoserialization.ParseKey")
 	} else {
 		nFb := 0
+		// a helper of the package that (transitively) builds fallback keys counts as one
+		var buildsFallback func(g *ssa.Function, depth int) bool
+		buildsFallback = func(g *ssa.Function, depth int) bool {
+			if g == nil || g.Blocks == nil || depth > 2 || g.Pkg != pk.Pkg {
+				return false
+			}
+			found := false
+			allInstrs(g, func(ins ssa.Instruction) {
+				if c2, ok := ins.(*ssa.Call); ok {
+					if strings.Contains(guard.CalleeName(&c2.Call), "protoserialization.NewFallbackProto") || buildsFallback(c2.Call.StaticCallee(), depth+1) {
+						found = true
+					}
+				}
+			})
+			return found
+		}
 		allInstrs(pk, func(ins ssa.Instruction) {
 			call, ok := ins.(*ssa.Call)
-			if !ok || !strings.Contains(guard.CalleeName(&call.Call), "protoserialization.NewFallbackProto") {
+			if !ok || call.Call.StaticCallee() == nil {
+				return
+			}
+			if !strings.Contains(guard.CalleeName(&call.Call), "protoserialization.NewFallbackProto") && !buildsFallback(call.Call.StaticCallee(), 1) {
 				return
 			}
 			nFb++
